@@ -329,7 +329,7 @@ fn random_op(r: &mut Rng) -> Op {
 }
 
 // ------------------------------------------------------------------ cluster part
-fn cluster_run(n: usize, arbiter_at: usize, writer_at: usize, seed0: u64, nconf: usize, v: &Verdicts, st: &Mutex<Stats>) {
+fn cluster_run(n: usize, arbiter_at: usize, writer_at: usize, pre_writes_at_a_secondary: usize, seed0: u64, nconf: usize, v: &Verdicts, st: &Mutex<Stats>) {
     let Some(mut c) = form_cluster(n, seed0, "c13") else {
         st.lock().unwrap().inconclusive += 1;
         v.inconclusive("cluster formation failed");
@@ -341,6 +341,16 @@ fn cluster_run(n: usize, arbiter_at: usize, writer_at: usize, seed0: u64, nconf:
         c.send("w", l);
     }
     let _ = c.run_until_quiet();
+    // the key's history before the conflict (round 10): plain writes that came in through a secondary. Whatever versions
+    // the nodes hold for the key after them, the decision of the arbiter has to end up on every replica
+    if pre_writes_at_a_secondary > 0 {
+        c.open_session("pw", n - 1);
+        c.send("pw", "use-db arb tok");
+        for i in 0..pre_writes_at_a_secondary {
+            c.send("pw", &format!("set alpha pre{}", i));
+        }
+        let _ = c.run_until_quiet();
+    }
     c.open_session("arb", arbiter_at);
     for l in ["use-db arb tok", "arbiter"] {
         c.send("arb", l);
@@ -364,7 +374,7 @@ fn cluster_run(n: usize, arbiter_at: usize, writer_at: usize, seed0: u64, nconf:
             sig["writer_at"] = json!(if writer_at == arbiter_at { "the-arbiter's-secondary" } else { "a-secondary-without-the-arbiter" });
         }
         v.report(sig,
-            json!({"nodes": n, "seed": seed0, "conflicts": nconf, "writer_at_node": writer_at, "detail": detail, "datasets": (0..n).map(|i| c.dataset(i)).collect::<Vec<_>>(),
+            json!({"nodes": n, "seed": seed0, "conflicts": nconf, "writer_at_node": writer_at, "plain_writes_through_a_secondary_before_the_conflict": pre_writes_at_a_secondary, "detail": detail, "datasets": (0..n).map(|i| c.dataset(i)).collect::<Vec<_>>(),
                    "links_tail": c.link_log().iter().rev().take(40).rev().map(|l| format!("[{}] n{}->n{} {}", l.0, l.1, l.2, l.3)).collect::<Vec<_>>(), "arbiter_inbox": c.replies("arb")}));
     };
     if !matches!(q, Outcome::Quiet(_)) {
@@ -584,7 +594,9 @@ pub fn run(tier: &str) -> i32 {
                 // every third run the conflicting writer talks to a secondary (the last node: with three nodes and the
                 // arbiter on node 1 that is a secondary without the arbiter)
                 let writer_at = if i % 3 == 2 { n - 1 } else { 0 };
-                cluster_run(n, arbiter_at, writer_at, r.next(), 1 + (i / 4) % 3, v, st);
+                // every other run the key was written through a secondary before (1-3 plain sets)
+                let pre = if (i / 4) % 2 == 1 { 1 + (i / 8) % 3 } else { 0 };
+                cluster_run(n, arbiter_at, writer_at, pre, r.next(), 1 + (i / 4) % 3, v, st);
             });
         }
     });
